@@ -226,6 +226,22 @@ mut("c09-id-wraps-at-64", ["C09"], "server.go",
 mut("c09-request-connid-from-requestid-after-100", ["C09"], "request.go",
     "\treturn r.conn.connID\n", "\tif r.ID > 100 {\n\t\treturn r.ID\n\t}\n\treturn r.conn.connID\n")
 
+# ---- C13 -------------------------------------------------------------------
+mut("c13-starttls-dispatched-on-goroutine", ["C13"], "conn.go",
+    "\t\tcase r.extendedName == ExtendedOperationStartTLS:\n\t\t\tc.router.serve(w, r)", "\t\tcase r.extendedName == ExtendedOperationStartTLS:\n\t\t\tgo c.router.serve(w, r)")
+mut("c13-writer-swapped-but-not-reader", ["C13"], "conn.go",
+    "\tc.reader = bufio.NewReader(c.netConn)\n", "\tif c.reader == nil {\n\t\tc.reader = bufio.NewReader(c.netConn)\n\t}\n")
+mut("c13-reader-swapped-but-not-writer", ["C13"], "conn.go",
+    "\tc.writer = bufio.NewWriter(c.netConn)\n", "\tif c.writer == nil {\n\t\tc.writer = bufio.NewWriter(c.netConn)\n\t}\n")
+mut("c13-responsewriter-created-before-swap", ["C13"], "conn.go",
+    "\t\tcase r.extendedName == ExtendedOperationStartTLS:\n\t\t\tc.router.serve(w, r)",
+    "\t\tcase r.extendedName == ExtendedOperationStartTLS:\n\t\t\tc.router.serve(w, r)\n\t\t\tstale = w.writer",
+    more=[("conn.go", "\trequestID := 0\n", "\trequestID := 0\n\tvar stale *bufio.Writer\n"),
+          ("conn.go", "\t\tw, err := newResponseWriter(c.writer, &c.writerMu, c.logger, c.connID, requestID)\n\t\tif err != nil {\n\t\t\treturn fmt.Errorf(\"%s: %w\", op, err)\n\t\t}\n",
+           "\t\tw, err := newResponseWriter(c.writer, &c.writerMu, c.logger, c.connID, requestID)\n\t\tif err != nil {\n\t\t\treturn fmt.Errorf(\"%s: %w\", op, err)\n\t\t}\n\t\tif stale != nil && requestID%5 == 0 {\n\t\t\tw.writer = stale\n\t\t}\n")])
+mut("c13-starttls-inline-only-when-first-request", ["C13"], "conn.go",
+    "\t\tcase r.extendedName == ExtendedOperationStartTLS:", "\t\tcase r.extendedName == ExtendedOperationStartTLS && requestID == 1:")
+
 # ---- C14 -------------------------------------------------------------------
 mut("c14-managedsait-criticality-dropped-on-decode", ["C14", "C01"], "control.go",
     "return NewControlManageDsaIT(WithCriticality(Criticality))", "return NewControlManageDsaIT()")
